@@ -613,20 +613,26 @@ impl Scenario for Market {
                     add(m1, o1, PCOLL);
                     l = self.new_ledger(&[(cast.a.0, req(0)), (m1, PCOLL)]);
                 }
-                "active-1" | "active-2" | "published-1" => {
+                "tight-client" => {
+                    // the client can afford exactly one deal, the provider two
+                    add(cast.a.0, cast.a.0, req(0));
+                    add(m1, o1, 2 * PCOLL);
+                    l = self.new_ledger(&[(cast.a.0, req(0)), (m1, 2 * PCOLL)]);
+                }
+                "active-1" | "active-2" | "published-1" | "published-2" => {
                     let ea = 2 * req(0) + 3;
                     add(cast.a.0, cast.a.0, ea);
                     add(cast.b.0, cast.b.0, ea);
                     add(m1, o1, 2 * PCOLL);
                     l = self.new_ledger(&[(cast.a.0, ea), (cast.b.0, ea), (m1, 2 * PCOLL)]);
-                    let batch: Vec<usize> = if bn == "active-2" { vec![0, 1] } else { vec![0] };
+                    let batch: Vec<usize> = if bn == "active-2" || bn == "published-2" { vec![0, 1] } else { vec![0] };
                     let prm = PublishStorageDealsParams { deals: batch.iter().map(|&i| self.proposal(&cast, &self.cfg.specs[i])).collect() };
                     let r = ext(&vm, w1, &STORAGE_MARKET_ACTOR_ADDR, &TokenAmount::zero(), Method::PublishStorageDeals as u64, Some(&prm));
                     assert!(r.ok(), "SETUP-FAILED publish: {}", r.tree());
                     let (ok, ids, _) = self.model_publish(&cast, &mut l, Who::W1, &batch, vm.epoch(), &|_| None);
                     assert!(ok);
                     l.publishes_left = self.cfg.publishes;
-                    if bn != "published-1" {
+                    if !bn.starts_with("published-") {
                         let secs: Vec<SectorDeals> = ids
                             .iter()
                             .map(|d| SectorDeals { sector_number: 10 + d, sector_type: RegisteredSealProof::StackedDRG32GiBV1P1, sector_expiry: FAR, deal_ids: vec![*d] })
@@ -759,7 +765,8 @@ impl Scenario for Market {
         v
     }
 
-    fn step(&self, w: &W, s: &VS<M>, a: &Act, _faults: &[usize]) -> Step<VS<M>> {
+    fn step(&self, w: &W, s: &VS<M>, a: &Act, faults: &[usize]) -> Step<VS<M>> {
+        let mut sites: Vec<usize> = vec![];
         let vm = &w.vm;
         let c = &w.cast;
         vm.restore(&s.snap);
@@ -805,9 +812,20 @@ impl Scenario for Market {
                     p => (vec![*p], pid),
                 };
                 let before = vm.balance(recipient);
+                vm.set_fault_plan(faults);
                 let r = ext(vm, c.id(*by), &market, &z, Method::WithdrawBalance as u64, Some(&WithdrawBalanceParams { provider_or_client: id(pid), amount: atto(amount) }));
                 let expect = amount >= 0 && approved.contains(by);
-                if r.ok() != expect {
+                if !faults.is_empty() {
+                    // fault class F1: the payout transfer fails (the recipient rejects it). The
+                    // withdrawal must then fail as a whole: escrow is debited only by what was paid.
+                    if r.ok() {
+                        bad(format!("withdrawal reported success although its payout transfer failed: {}", r.tree()));
+                    }
+                    if vm.balance(recipient) != before {
+                        bad("recipient balance moved although the payout transfer failed".to_string());
+                    }
+                    outcome = "payout failed";
+                } else if r.ok() != expect {
                     bad(format!("withdraw {amount} of {party:?} by {by:?}: model accept={expect}: {}", r.tree()));
                 } else if expect {
                     let want = amount.min(avail).max(0);
@@ -826,8 +844,11 @@ impl Scenario for Market {
                         bad(format!("recipient balance moved by {} instead of {want}", vm.balance(recipient) - &before));
                     }
                     *l.esc(pid) -= want;
+                    sites = r.subs.iter().filter(|i| i.from == MARKET && !i.value.is_zero()).filter_map(|i| i.send_index).collect();
                 }
-                outcome = if r.ok() { "accepted" } else { "rejected" };
+                if faults.is_empty() {
+                    outcome = if r.ok() { "accepted" } else { "rejected" };
+                }
             }
             Act::Publish { by, batch } => {
                 l.publishes_left -= 1;
@@ -1044,6 +1065,7 @@ impl Scenario for Market {
         }
         let mut st = Step::new(VS { snap: vm.snapshot(), m: M { base: s.m.base, l } }, outcome);
         st.agreed = 1;
+        st.sites = sites;
         st.violation = viol;
         st
     }
